@@ -90,6 +90,7 @@ BOXES_1D = {
     "nondyadic1": ([0.1], [0.7]),
     "tiny1": ([0.5], [0.501]),
     "large1": ([-1e4], [7e3]),
+    "perdim2": ([-1.0, 1.0], [1.0, 3.0]),  # two action dimensions with different bounds (plan rows must keep them apart)
 }
 INF = float("inf")
 Y_FULL = [0.0, 1.0, -1.0, 20.0, -20.0, 1e4, -1e4, 1e30, -1e30, INF, -INF]
@@ -141,7 +142,11 @@ def items(tier, seed):
     for algo in ["mrq", "td7", "ddpg", "td3", "td3_lap"]:
         for b, s, (vi, v) in itertools.product(loop_boxes, scripts, enumerate(variants)):
             out.append(dict(name=f"loop-{algo}-{b}-{s}-v{vi}", kind="loop", algo=algo, box=b, script=s, seed=seed, **v))
-    pets_boxes = ["asym1", "nondyadic1", "tiny1"] + (["large1"] if thorough else [])
+    # exploration noise 0: the action sent to the environment must be the policy's action (noise level x half range x normal == 0)
+    for algo in ["mrq", "td7", "ddpg", "td3", "td3_lap"]:
+        out.append(dict(name=f"loop-{algo}-asym-noise0", kind="loop", algo=algo, box="asym", script="ccTccUcc", seed=seed, exploration_noise=0.0,
+                        policy_scale=None, zero_noise=True))
+    pets_boxes = ["asym1", "nondyadic1", "tiny1", "perdim2"] + (["large1"] if thorough else [])
     pets_scripts = ["cccccTcc"] + (["cccccccc"] if thorough else [])
     for b, s, rd in itertools.product(pets_boxes, pets_scripts, [1, -1, 0]):
         if not thorough and (b, rd) in (("nondyadic1", 0), ("tiny1", 1)):
@@ -336,6 +341,11 @@ def work_sampler(item, col):
         cfgname = (item["box"], noise, clipv)
 
         def factory():
+            # process history is part of the item: a sampler for a DIFFERENT box of the same shape, dtype and noise
+            # settings is built (and called once) first, so anything the factories keep across calls - e.g. a cache
+            # keyed without the bounds - is filled by the decoy and shows on the box under test in every process
+            decoy = gym.spaces.Box(lo32 - 3.0 - 2.0 * np.abs(lo32), hi32 + 5.0 + 3.0 * np.abs(hi32), dtype=np.float32)
+            _ = td3.make_sample_target_actions(decoy, noise, clipv) if target else ddpg.make_sample_actions(decoy, noise)
             if target:
                 return td3.make_sample_target_actions(sp, noise, clipv)
             return ddpg.make_sample_actions(sp, noise)
@@ -590,6 +600,19 @@ def run_loop(name, script, cfg):
     return env, result, kw
 
 
+def acting_policy(algo, result):
+    """The policy the routine acts with, rebuilt from what it returned (learning rate 0: parameters unchanged)."""
+    if algo in ("ddpg", "td3", "td3_lap"):
+        return result.policy
+    if algo == "td7":
+        from rl_blox.blox.embedding.sale import DeterministicSALEPolicy
+
+        return DeterministicSALEPolicy(result.fixed_embedding, result.actor)
+    if algo == "mrq":
+        return result.policy_with_encoder
+    raise KeyError(algo)
+
+
 def work_loop(item, col):
     algo = item["algo"]
     pets = algo == "pets"
@@ -605,7 +628,16 @@ def work_loop(item, col):
         cfg.update(exploration_noise=item["exploration_noise"])
         if item.get("policy_scale") is not None:
             cfg["policy_scale"] = item["policy_scale"]
+        if item.get("zero_noise"):
+            cfg["lr"] = 0.0  # parameters stay at their initial values, so the harness can evaluate the acting policy itself
     entry = f"train_{algo}"
+    if not pets:
+        from rl_blox.algorithm import ddpg, td3
+
+        # decoy: the exploration / target samplers are first built for another box with the same noise settings
+        decoy = gym.spaces.Box(np.asarray(lo_l, dtype=np.float32) - 9.0, np.asarray(hi_l, dtype=np.float32) + 11.0, dtype=np.float32)
+        ddpg.make_sample_actions(decoy, cfg["exploration_noise"])
+        td3.make_sample_target_actions(decoy, cfg["exploration_noise"], 0.5)
     env, result, kw = run_loop(algo, item["script"], cfg)
     lo32, hi32 = env.action_space.low, env.action_space.high
     allow = ULP_ALLOW if pets else 0
@@ -645,6 +677,21 @@ def work_loop(item, col):
                     col.outcome("loop_pets_planner_actions_beyond_the_bound_by_rounding")
         else:
             col.outcome(f"loop_{algo}_warmup_actions")
+    if item.get("zero_noise") and len(steps) > ls:
+        acting = acting_policy(algo, result)
+        for t, e in enumerate(steps):
+            if t < ls:
+                continue
+            o = np.asarray(env.transitions()[t][0], dtype=np.float32)
+            want = np.asarray(acting(jnp.asarray(o)), dtype=np.float64)
+            got = np.asarray(e[1], dtype=np.float64)
+            col.tick(1, ("noise0", algo, t))
+            col.outcome("zero_noise_policy_actions_compared")
+            tol = 4 * np.spacing(np.maximum(np.abs(lo32), np.abs(hi32)).astype(np.float32)).astype(np.float64)
+            if got.shape != want.shape or not np.all(np.abs(got - want) <= tol):
+                col.violation(SIG.format(entry, "exploration-perturbation!=configured-noise-level*half-range*normal"),
+                              dict(routine=entry, step=t, exploration_noise=0.0, sent=got.tolist(), policy_action=want.tolist()))
+                break
     if pets:
         from rl_blox.algorithm import pets as P
 
